@@ -41,10 +41,6 @@ PINNED = {
             ikeconf = self._load_ike_conf(connection_name, ikeconfdict, my_addresses)
             self.ike_configurations[ikeconf.my_addr, ikeconf.peer_addr] = ikeconf
         except CLASSES_0 as ex:
-            raise ConfigurationError(MSG)
-        except CLASSES_1 as ex:
-            raise ConfigurationError(MSG)
-        except CLASSES_2 as ex:
             raise ConfigurationError(MSG)''',
     'configuration.Configuration._load_ike_conf': '''def _load_ike_conf(self, name, conf_dict, my_addresses):
     encr = self._load_crypto_algs('encr', conf_dict.get('encr', DEFAULT), _encr_name_to_transform)
@@ -230,6 +226,16 @@ class Extract(ast.NodeTransformer):
         self.handlers.append(names)
         node.type = ast.Name(f'CLASSES_{k}', ast.Load())
         node.body = [self.visit(s) for s in node.body]
+        return node
+
+    def visit_Try(self, node):
+        node = self.generic_visit(node)
+        # several clauses that all do the same thing (re-raise one class) count as one clause list: how many
+        # there are and what they name is extracted (init_handlers), not pinned
+        bodies = {ast.unparse(ast.Module(h.body, [])) for h in node.handlers}
+        if len(node.handlers) > 1 and len(bodies) == 1 and len({h.name for h in node.handlers}) == 1:
+            first = node.handlers[0]
+            node.handlers = [first]
         return node
 
     def visit_If(self, node):
